@@ -23,8 +23,15 @@ LEVEL = "model_checking"
 def family(tier: str) -> list:
     atoms = [Lit("ab"), Lit("abc"), Rx("a+"), Rx("[ab]*c"), Lit("a"), Rx("a?b")]
     gs = []
-    for e in families.exprs(atoms, 1 if tier == "quick" else 2, full_binary_depth=1):
+    d1 = families.exprs(atoms, 1, full_binary_depth=1)
+    for e in d1:
         gs.append(RefGrammar({"<start>": e}))
+    deep = []
+    if tier != "quick":
+        # operator depth 2 at the quick tier's input length; depth <= 1 and the hand-picked grammars at the longer one
+        # (depth 2 at length 6 did not finish in 90 minutes)
+        seen_d1 = set(d1)
+        deep = [RefGrammar({"<start>": e}) for e in families.exprs(atoms, 2, full_binary_depth=1) if e not in seen_d1]
     extra = [
         RefGrammar({"<start>": Alt((Lit("ab"), Lit("abc")))}),
         RefGrammar({"<start>": Seq((Plus(Lit("ab")), Lit("c")))}),
@@ -45,6 +52,8 @@ def family(tier: str) -> list:
     out = []
     for g in gs:
         out.append((g, ["a", "b", "c"], 5 if tier == "quick" else 6))
+    for g in deep:
+        out.append((g, ["a", "b", "c"], 5))
     for g in families.binary_family(1):
         out.append((g, [0x00, 0x01, 0x61, 0xA5], 3 if tier == "quick" else 4))
     extra_bin = [
